@@ -493,7 +493,7 @@ for _s in (True, False):
 def mk_obj(v0, v1, v2, e):
     obj = M(v0, v1, v2) if MODEL == "MA" else M(Stub(v0), Stub(v1), Stub(v2))
     if MODEL == "MR": obj.rest = {{"ex": e}} if e >= 0 else {{}}
-    if MODEL == "MS": obj.sat = {{"ex": e}} if e >= 0 else None
+    if MODEL == "MS": obj.sat = {{"ex": e}} if e >= 0 else {{}}
     return obj
 ''')
     if extra_setup:
